@@ -13,6 +13,9 @@ func (w *World) Loop(ch Chooser, horizon time.Duration) (timedOut bool) {
 	for {
 		synctest.Wait()
 		w.Net.Flush()
+		if w.StepLimit > 0 && len(w.Trace) >= w.StepLimit {
+			return false
+		}
 		ds := w.Deliverable()
 		active := w.Active()
 		var ex []Event
